@@ -265,6 +265,10 @@ def run(tier):
     res = core.Result("C01", tier)
     run_e1(res, tier)
     run_e2(res, tier)
+    # "generic or not": the generic corpus (message types named with their used parameters only, probes for
+    # names no handler has, such as the parameter-marker variant) is shared with C15
+    from . import c15
+    c15.run_e2(res, tier, extended=False)
     res.cov["rule"] = ("E1: every single-handler program kind x name x argument-type list (arity <= 2 over %d types; arity 3 over a reduced set), every "
                        "name x kind x argument-name pair, every ordered pair of names as two-handler programs (same and mixed kinds), contract and "
                        "interface: one state per program, oracle on the generated type's structure.  E2: on the compiled `basic` corpus every "
